@@ -7,7 +7,39 @@ ALL = ['C%02d' % i for i in range(1, 21)]
 
 # pid -> (technique, level text, level note, design ref)
 CHECKS = {
- 'C06': ('Coq proof (weighted least-squares optimality of fit_shifts / fit_rscale incl. reflections / fit_rshift / '
+ 'C02': ('Coq proof (gWCS pipeline state machine: requested affine applied exactly in every reachable state, own and '
+         'reference plane; _tp2tp exact on affine maps; FITS exact at the reference pixel for every projection with '
+         'P_c(0)=c and everywhere in the flat instance; stencil exact to degree 4) + correspondence in Coq of tp_affine '
+         'read back from the pipeline after every step + measured identity on the implementation',
+         'Machine-checked theorems by induction over arbitrary correction histories (copy / re-wrap included), with a '
+         'refutation witness for the pre-F7 code. Each run compares the affine matrices/translations of the gWCS '
+         'pipeline with the exact model after every step of random dyadic histories, and evaluates the C02 identity '
+         'on gWCS (<= 1e-7 arcsec) and FITS correctors (bound 4(|s|+|M-I|rho) r^2 + quantum terms, measured constant '
+         '<= 1.6) over geometries incl. RA wrap, high declination, SIP, CD/PC, reference planes.',
+         'PARTIAL for FITS off the reference pixel and for reference planes with another tangent point: the '
+         'second/first-order curvature bounds are measured, not proved. wcslib/gwcs/astropy.modeling are external '
+         '(Section hypotheses: inverse pairs, P_c(0)=c).',
+         'DESIGN.md section 6 (corrector algebra)'),
+ 'C03': ('Coq proof (six conversions coherent - mutual inverses and commuting triangle - in every reachable gWCS state '
+         'and after every FITS flat history) + round trips / triangle on all input shapes measured on the implementation',
+         'Machine-checked invariant over arbitrary histories of the corrector state machine (invertibility of the '
+         'accumulated affine preserved); each run exercises round trips and the triangle on shapes (), (1,), (n,), '
+         '(n,m) for fresh, corrected, copied and re-wrapped FITS and gWCS correctors and compares pipeline observables '
+         'with the model in Coq.',
+         'Array shapes and the external transforms are measured. Known finding K4 (gwcs outside_footprint makes '
+         'world_to_det NaN for some in-image positions).',
+         'DESIGN.md section 6 (corrector algebra)'),
+ 'C04': ('Coq proof (identity, inverse, both composition orders, re-wrap = live for any continuation, exactly one '
+         'correction frame, original WCS untouched; FITS flat group laws) + correspondence in Coq of pipeline '
+         'observables over histories 0..6 with copy()/re-wrap + group laws measured on a pixel grid',
+         'Machine-checked theorems by induction over histories, refutation witness for the pre-F7 code. Each run '
+         'replays random dyadic histories on live / copied / re-wrapped correctors and compares tp_affine and the frame '
+         'list with the model in Coq (own-plane and copy/re-wrap variants exactly, reference-plane variants within '
+         '2^-40), and checks the group laws on the sky for FITS and gWCS.',
+         'Independence of copies and "caller\'s FITS WCS object never modified" are measured (the model is purely '
+         'functional). External transforms as Section hypotheses.',
+         'DESIGN.md section 6 (corrector algebra)'),
+'Coq proof (weighted least-squares optimality of fit_shifts / fit_rscale incl. reflections / fit_rshift / '
          'fit_general for every list and weighting; exact recovery) + per-run correspondence evaluated inside Coq',
          'Machine-checked optimality theorems for an exact-rational model of each single-shot fitter (all list '
          'lengths, all non-negative weights, both reflection branches; rshift via a root-free Cauchy-Schwarz '
@@ -119,6 +151,16 @@ CHECKS = {
          'Spherical overlap areas are external (rectangles with exact areas are used at helper level). Ties are '
          'checked against the property predicate only. Trusted: Coq kernel + vm_compute, python harness.',
          'DESIGN.md section 6 (C15)'),
+ 'C18': ('Coq proof (set_correction is a record update: only crval and the linear matrix change; diag(cdelt).(pc.U) = '
+         '(diag(cdelt).pc).U; CD/PC twins agree for every projection family) + attribute diff, header round trip, '
+         'CD/PC twins and ValueError exits on the implementation, FITS state compared with the model in Coq',
+         'Machine-checked theorems about the FITS correction model; each run corrects celestial TAN WCSs (CD and PC, '
+         'SIP on/off, pointings/orientations/scales), compares CRVAL and the linear matrix with the flat model where '
+         'applicable, checks every other attribute unchanged, header round trip, and that CD and PC+CDELT twins give '
+         'identical corrected sky mappings; non-celestial / missing WCS rejected with ValueError.',
+         'Header I/O and wcslib are external (measured). LATPOLE tracks CRVAL by wcslib default and is excluded from '
+         'the attribute diff.',
+         'DESIGN.md section 6 (corrector algebra)'),
  'C19': ('Coq proof (soundness of an ownership/alias checker incl. helper-call summaries) + translator regenerating '
          'the ownership IR of the array-level entry points from the current source on every run (checked by '
          'vm_compute) + byte-level runtime monitor of all entry points',
@@ -147,6 +189,14 @@ CHECKS = {
          'order) is external: measured only. Known findings K2 and K3 (spherical_geometry multi_union; summed '
          'member-wise overlaps). Trusted: Coq kernel + vm_compute, python harness.',
          'DESIGN.md section 6 (C16)'),
+ 'C20': ('Coq proof (shoelace area of the image of the unit square under an affine map = |det J|; scales by |det M| '
+         'under a correction in every gWCS state) + comparison with a finite-difference Jacobian on the implementation',
+         'Machine-checked theorems about tanp_pixel_scale on the corrector model; each run compares '
+         'tanp_pixel_scale(x, y)^2 with |det J| of a finite-difference Jacobian of det_to_tanp for FITS (CD/PC/SIP) '
+         'and gWCS correctors over positions and correction histories, tanp_center_pixel_scale with the value at the '
+         'detector position of the tangent point, and the units.',
+         'Square root, units and non-affine (distorted) maps are measured; the theorem covers affine det->tanp maps.',
+         'DESIGN.md section 6 (corrector algebra)'),
  'C17': ('Coq proof (Gauss-Jordan inverse correct for every order n; null vector => Singular) + per-run '
          'correspondence of the exact model with linalg.inv evaluated inside Coq',
          'Machine-checked theorems about an exact-rational model of the Gauss-Jordan algorithm (left and right '
